@@ -48,7 +48,7 @@ def run(tier):
               len(data["cmp"]) * 2 + len(data["sw"]) + len(data["sel"])),
              ("Delay/Average/Derivative", lambda: discdrv.check_histories(data["hist"]), len(data["hist"])),
              ("Sampling", lambda: discdrv.check_sampling(data["samp"]), len(data["samp"])),
-             ("DeadBandRT", discdrv.check_deadband_rt, 1)]
+             ("DeadBandRT", lambda: discdrv.check_deadband_rt(data["rt"]), len(data["rt"]))]
     for name, fn, n in parts:
         try:
             bad = fn()
@@ -60,8 +60,6 @@ def run(tier):
         seen = set()
         for b in bad:
             key = "%s:definition" % b["cls"]
-            if b["cls"] == "DeadBandRT":
-                key = "DeadBandRT:return_flags_never_set"
             if key in seen:
                 continue
             seen.add(key)
